@@ -15,8 +15,8 @@ for cf in sorted(glob.glob("/tmp/seedconfirm/C*.json")):
     src = os.path.dirname(patch) if "/out" in patch else None
     m = re.match(r"(C\d\d)-([A-Z]\d?)", name)
     pid, x = m.group(1), m.group(2)
-    rnd = 2 if x.endswith("2") else 1
-    srcdir = f"/tmp/seed/{pid}/out{'2' if rnd == 2 else ''}/{x[0]}"
+    rnd = int(x[1]) if len(x) > 1 else 1
+    srcdir = f"/tmp/seed/{pid}/out{rnd if rnd > 1 else ''}/{x[0]}"
     meta = json.load(open(os.path.join(srcdir, "meta.json")))
     d = os.path.join(OUT, name)
     shutil.rmtree(d, ignore_errors=True)
